@@ -281,7 +281,7 @@ func genCase(t *rapid.T) Case {
 			c.Gaps[i] = genLongWS(t) + c.Gaps[i]
 		}
 		c.SegKind = rapid.IntRange(0, xport.SegKinds-1).Draw(t, "segk")
-		if c.SegKind == 2 || c.SegKind == 3 {
+		if c.SegKind == 2 || c.SegKind == 3 || c.SegKind == 5 {
 			c.Seg = rapid.SliceOfN(rapid.IntRange(1, 9), 1, 6).Draw(t, "seg")
 		}
 		if n := max(len(jsonref.Join(jsonref.Tokens(c.Val, c.Mode), c.Gaps)), len(jsonref.Join(jsonref.Tokens(c.Val, c.Mode), c.Plain))); n > 11000 && c.SegKind != 0 && c.SegKind != 4 {
